@@ -255,13 +255,28 @@ def run(chk):
                            f"`count(filter=..)` is rewritten to `ops.{new_op}`, which is not a counting aggregate ({sorted(counting_ops)}): for a group "
                            "in which no row satisfies the filter it yields null instead of 0")  # fmt: skip
 
-    # ---- R4 polars
+    # ---- R4 polars: the guard table over every aggregate of the catalogue, on the interpreted compile_col_expr (polsim); the
+    # shape of the wrapping `if` is the fallback
+    counting0 = {v for v, op in cat.ops.items() if op.ftype == "AGGREGATE" and op.name.split(".")[-1] == "count"}
+    listy0 = {v for v, op in cat.ops.items() if op.ftype == "AGGREGATE" and op.signatures[0].return_type.cls == "List"}
+    agg_table = [(v, min(len(s_.types) for s_ in op.signatures), v not in counting0 | listy0) for v, op in sorted(cat.ops.items()) if op.ftype == "AGGREGATE"]
+    guard_decided = False
+    try:
+        res_g = polsim.aggregate_guard_table(polsim.PolWorld(repo, _mte(m)), agg_table)
+        for desc, ok_, detail in res_g:
+            chk.ob("R4", pol, readers["polars"], f"polars aggregate interpreted: {desc}", ok_, detail)
+        chk.floor("R4", "aggregates of the catalogue", len(res_g), 10)
+        guard_decided = True
+    except (AnalysisError, _SB) as e:
+        chk.undecided.append(f"R4: Polars compile_col_expr could not be interpreted on the aggregates ({str(e)[:140]})")
     pf = readers["polars"]
     wrapper = None
     for n in ast.walk(pf):
         if isinstance(n, ast.If) and "Ftype.AGGREGATE" in norm(n.test) and any("count() == 0" in norm(s) for s in n.body):
             wrapper = n
-    if wrapper is None:
+    if guard_decided:
+        pass
+    elif wrapper is None:
         chk.fail("R4", pol, pf, "null-for-empty-group wrapper", "the Polars aggregate wrapper `when(arg.count() == 0).then(None)` is gone: "
                  "sum/any/all of a group without non-null input yield 0/False instead of null")  # fmt: skip
     else:
@@ -282,46 +297,65 @@ def run(chk):
         body = " ".join(norm(s) for s in wrapper.body)
         chk.ob("R4", pol, wrapper, "wrapper: when(args[0].count() == 0).then(None).otherwise(value)", "pl.when(args[0].count() == 0).then(None).otherwise(value)" in body,
                "the wrapper no longer replaces the aggregate of a group without non-null input by null")  # fmt: skip
+    # the Polars Summarize branch interpreted on a schema-level frame stub (polsim); the partial evaluation of its statements is
+    # the fallback
     pcfg = sib.cfgs["polars"]
-    items = Slicer(sym, pol, pcfg.subject, sym.cls("Summarize")).slice(pcfg.func.body)
-    # form-agnostic (if statement or conditional expression): evaluate the slice for grouped / ungrouped
-    raw = [it.node if isinstance(it, Cond) else it for it in items]
-    # the flag under evaluation is the list of grouping names: its own definition is replaced by the valuation
-    # (its name is read off the call `.group_by(*<keys>)`)
-    keys_var = None
-    for s_ in raw:
-        for c in calls_in(s_):
-            if isinstance(c.func, ast.Attribute) and c.func.attr == "group_by" and c.args and isinstance(c.args[0], ast.Starred) and isinstance(c.args[0].value, ast.Name):
-                keys_var = c.args[0].value.id
-    if keys_var is None:
-        raise AnalysisError("C04/R4: no `.group_by(*<keys>)` call in the Polars Summarize slice")
-    keys_def = [s_ for s_ in raw if isinstance(s_, ast.Assign) and any(norm(t_) == keys_var for t_ in s_.targets)]
-    raw = [s_ for s_ in raw if s_ not in keys_def]
-    ok = True
-    seen_any = False
-    for grouped in (True, False):
-        ev = Evaluator({keys_var: [Sym("g")] if grouped else []})
-        ev.skip_loops = True
-        ev.lenient = True
-        try:
-            outs = ev.run_block(raw)
-        except Unsupported as u:
-            raise AnalysisError(f"C04/R4: cannot evaluate the Polars Summarize slice: {u}") from u
-        for _ret, env, _d in outs:
-            tags = all_tags(env.get("df")) if env.get("df") is not None else frozenset()
-            calls = {t[1] for t in tags if t[0] == "call"}
-            seen_any = True
-            if grouped:
-                ok = ok and "group_by" in calls and "agg" in calls
-            else:
-                ok = ok and "select" in calls and "group_by" not in calls
-    ok = ok and seen_any
-    chk.ob("R4", pol, pcfg.func, "polars Summarize: group_by(*group_by).agg(..) if grouped else select(..)", ok,
-           "Polars summarize no longer aggregates per group / to a single row without grouping")  # fmt: skip
-    # the keys are the physical names of the grouping columns: a comprehension over partition_by through name_in_df
-    keys_ok = len(keys_def) == 1 and isinstance(keys_def[0].value, (ast.ListComp, ast.GeneratorExp)) and norm(keys_def[0].value.generators[0].iter) == "partition_by" and norm(keys_def[0].value.elt).startswith("name_in_df[")
-    chk.ob("R4", pol, pcfg.func, "polars Summarize groups by the grouping state", keys_ok,
-           "the Polars group keys are not the table's grouping columns")  # fmt: skip
+    from ..sqlsim import branch_body as _bb4
+
+    pol_summ_decided = False
+    try:
+        sb4 = _bb4(pcfg.func, pcfg.subject, "Summarize")
+        if sb4 is None:
+            raise AnalysisError("no `isinstance(nd, Summarize)` branch in the Polars compile_ast")
+        res_s = polsim.summarize_scenarios(polsim.PolWorld(repo, _mte(m)), sb4)
+        for desc, ok_, detail in res_s:
+            chk.ob("R4", pol, pcfg.func, f"polars Summarize interpreted: {desc}", ok_, detail)
+        pol_summ_decided = True
+    except (AnalysisError, _SB) as e:
+        chk.undecided.append(f"R4: the Polars Summarize branch could not be interpreted ({str(e)[:140]})")
+    except _PR as p_:
+        pol_summ_decided = True
+        chk.ob("R4", pol, pcfg.func, "polars Summarize branch on a frame stub", False, f"the Polars Summarize branch raises {p_.name}: {p_.msg}")
+    if not pol_summ_decided:
+        items = Slicer(sym, pol, pcfg.subject, sym.cls("Summarize")).slice(pcfg.func.body)
+        # form-agnostic (if statement or conditional expression): evaluate the slice for grouped / ungrouped
+        raw = [it.node if isinstance(it, Cond) else it for it in items]
+        # the flag under evaluation is the list of grouping names: its own definition is replaced by the valuation
+        # (its name is read off the call `.group_by(*<keys>)`)
+        keys_var = None
+        for s_ in raw:
+            for c in calls_in(s_):
+                if isinstance(c.func, ast.Attribute) and c.func.attr == "group_by" and c.args and isinstance(c.args[0], ast.Starred) and isinstance(c.args[0].value, ast.Name):
+                    keys_var = c.args[0].value.id
+        if keys_var is None:
+            raise AnalysisError("C04/R4: no `.group_by(*<keys>)` call in the Polars Summarize slice")
+        keys_def = [s_ for s_ in raw if isinstance(s_, ast.Assign) and any(norm(t_) == keys_var for t_ in s_.targets)]
+        raw = [s_ for s_ in raw if s_ not in keys_def]
+        ok = True
+        seen_any = False
+        for grouped in (True, False):
+            ev = Evaluator({keys_var: [Sym("g")] if grouped else []})
+            ev.skip_loops = True
+            ev.lenient = True
+            try:
+                outs = ev.run_block(raw)
+            except Unsupported as u:
+                raise AnalysisError(f"C04/R4: cannot evaluate the Polars Summarize slice: {u}") from u
+            for _ret, env, _d in outs:
+                tags = all_tags(env.get("df")) if env.get("df") is not None else frozenset()
+                calls = {t[1] for t in tags if t[0] == "call"}
+                seen_any = True
+                if grouped:
+                    ok = ok and "group_by" in calls and "agg" in calls
+                else:
+                    ok = ok and "select" in calls and "group_by" not in calls
+        ok = ok and seen_any
+        chk.ob("R4", pol, pcfg.func, "polars Summarize: group_by(*group_by).agg(..) if grouped else select(..)", ok,
+               "Polars summarize no longer aggregates per group / to a single row without grouping")  # fmt: skip
+        # the keys are the physical names of the grouping columns: a comprehension over partition_by through name_in_df
+        keys_ok = len(keys_def) == 1 and isinstance(keys_def[0].value, (ast.ListComp, ast.GeneratorExp)) and norm(keys_def[0].value.generators[0].iter) == "partition_by" and norm(keys_def[0].value.elt).startswith("name_in_df[")
+        chk.ob("R4", pol, pcfg.func, "polars Summarize groups by the grouping state", keys_ok,
+               "the Polars group keys are not the table's grouping columns")  # fmt: skip
 
     # ---- R5 sql
     items = Slicer(sym, sql, scfg.subject, sym.cls("Summarize")).slice(scfg.func.body)
